@@ -121,13 +121,21 @@ LIBCFG_MOD = 8    # one macro-free call in eight gets a complete rule file (with
 DEBUGLOG_MOD = 16  # one call in sixteen runs with the library logger at DEBUG level
 
 
-def _selector(rule_path, mode, search, only_addr):
-    """A number derived from the rule text and the modes: the variations above are a function of the call, not of chance."""
+def _selector(rule_path, mode, search, only_addr, input_path=None):
+    """A number derived from the rule text, the input and the modes: the variations above are a function of the call, not of chance.
+    (The input is part of it since round 7: checks that always ask with the same rule - the stream of a listing - would otherwise
+    make the same choice for every case.)"""
     try:
         with open(rule_path, "rb") as f:
             h = zlib.crc32(f.read())
     except OSError:
         return 7
+    if input_path is not None:
+        try:
+            with open(input_path, "rb") as f:
+                h = zlib.crc32(f.read(65536), h)
+        except OSError:
+            pass
     return (h + zlib.crc32(f"{mode}|{search}|{only_addr}".encode())) & 0x7FFFFFFF
 
 
@@ -152,6 +160,7 @@ def match_files(rule_path, input_path, mode="list", search="all", only_addr=Fals
     import logging
 
     selector = _selector(rule_path, mode, search, only_addr)
+    reuse = bool(REUSE_MOD) and (selector % REUSE_MOD == 0 or _selector(rule_path, mode, search, only_addr, input_path) % REUSE_MOD == 0)
     extra_lib = False
     if macros is None and LIBCFG_MOD and selector % LIBCFG_MOD == 1:
         try:
@@ -183,7 +192,7 @@ def match_files(rule_path, input_path, mode="list", search="all", only_addr=Fals
 
         mop = build(mode, search, only_addr)
         res = mop.perform_matching()
-        if REUSE_MOD and selector % REUSE_MOD == 0:
+        if reuse:
             # Asking the same MasterOfPuppets again must give the same answer (C14: repeating an operation gives the same
             # result; holds on the pinned tree for every mode).  A difference is reported as an exception outcome, which
             # every check treats as a deviation.
@@ -235,9 +244,28 @@ def compile_rule(doc, macros=None):
     s = scratch()
     rp = s.write("rule.yaml", rule_text(doc))
     try:
-        return ("ok", Yaml2Regex(rp, macros_from_terminal=macros).produce_regex())
+        y2r = Yaml2Regex(rp, macros_from_terminal=macros)
+        rx = y2r.produce_regex()
+        if REUSE_MOD and zlib.crc32(rule_text(doc).encode()) % REUSE_MOD == 1:
+            # produce_regex() is a public entry point: asking the same compiler object again must give the same regex (C14: repeating
+            # an operation gives the same result; holds on the pinned tree)
+            rx2 = y2r.produce_regex()
+            if rx2 != rx:
+                return ("exc", "SecondCompilationOnSameInstanceDiffers", ("first=%r second=%r" % (rx[:120], rx2[:120])))
+        return ("ok", rx)
     except (Exception, AssertionError) as exc:  # noqa: BLE001
         return classify_exc(exc)
+
+
+def second_compilation(doc, macros=None):
+    """For one rule in four (chosen by its text): compile it twice on the same Yaml2Regex object; -> None, or a description of the
+    difference.  Exceptions are not reported here - every check sees them through its own call."""
+    if not REUSE_MOD or zlib.crc32(rule_text(doc).encode()) % REUSE_MOD != 1:
+        return None
+    r = compile_rule(doc, macros=macros)
+    if r[0] == "exc" and r[1] == "SecondCompilationOnSameInstanceDiffers":
+        return r[2]
+    return None
 
 
 CONSOLE_SCRIPT = os.path.join(os.path.dirname(sys.executable), "jasm")
